@@ -127,6 +127,9 @@ fn main() {
                 }
             }
         }
+        "famsizes" => {
+            println!("f_seq(2)={} f_seq(3)={} f_seq(3,thorough)={}", gen::f_seq(2, false).len(), gen::f_seq(3, false).len(), gen::f_seq(3, true).len());
+        }
         "dump" => ordertest::dump(&args[2]),
         "fmt" => {
             let text = std::fs::read_to_string(&args[2]).unwrap();
